@@ -15,7 +15,7 @@ rc=0
 for i in $(seq 0 $((N-1))); do
   tail -1 "lean_s$i.log" | grep -q ', 0 survived' || { rc=1; grep -v '^KILLED ' "lean_s$i.log"; }
 done
-cat lean_s*.log | grep '^KILLED' | sed 's/\[refused by the extractor: extract: /[refused: /' | sort >tools/genbuf_selftest.last.txt
+cat lean_s*.log | grep '^KILLED' | sed -e 's/\[refused by the extractor: extract: /[refused: /' -e 's/\[refused by the extractor, topics: /[refused: topics /' | sort >tools/genbuf_selftest.last.txt
 grep -h 'SURVIVED\|^MUTANT\|KILLED?' lean_s*.log
 echo "== $(wc -l <tools/genbuf_selftest.last.txt) mutants killed ($(grep -c 'refused:' tools/genbuf_selftest.last.txt) of them refused by the extractor); exit status $rc"
 for i in $(seq 0 $((N-1))); do rm -rf "lean_s$i" "lean_s$i.log"; done
